@@ -141,6 +141,15 @@ func serve(h http.Handler, q req, hook func(string)) string {
 	return fmt.Sprintf("%d %s %q", w.status, s, w.body)
 }
 
+func serveRecover(h http.Handler, q req, hook func(string)) (out string, pan string) {
+	defer func() {
+		if p := recover(); p != nil {
+			pan = fmt.Sprint(p)
+		}
+	}()
+	return serve(h, q, hook), ""
+}
+
 type handler struct{ hook func(string) }
 
 func (h handler) ServeHTTP(w http.ResponseWriter, r *http.Request) {
@@ -264,8 +273,13 @@ func main() {
 						}
 					}
 				}
-				got := serve(m.Wrap(handler{hook}), reqs[qi], hook)
+				got, pan := serveRecover(m.Wrap(handler{hook}), reqs[qi], hook)
 				nReq.Add(1)
+				if pan != "" {
+					bad.Add(1)
+					firstBad.CompareAndSwap(nil, fmt.Sprintf("PANIC under concurrency (the sequential code never panics): %s -> %s", reqs[qi].key(), pan))
+					continue
+				}
 				if !adm[qi][got] {
 					bad.Add(1)
 					firstBad.CompareAndSwap(nil, fmt.Sprintf("response matches no single (configuration, debug) state: %s -> %s", reqs[qi].key(), got))
